@@ -349,4 +349,12 @@ MUTANTS = [
          find='        arguments = super().validate_method(method, params, exclude)\n',
          replace='        arguments = super().validate_method(method, params, exclude)\n        if not arguments:\n            return arguments\n',
          expect='VALID-ORDER'),
+    dict(name='bind-fills-defaults', file='pjrpc/server/validators/base.py',
+         find='            return signature.bind(*method_args, **method_kwargs)\n',
+         replace='            bound = signature.bind(*method_args, **method_kwargs)\n            bound.apply_defaults()\n            return bound\n', expect='VALID-SUBJECT'),
+    dict(name='options-merged-in-place', file='pjrpc/server/validators/jsonschema.py',
+         find='            kwargs = {**self.default_kwargs, **kwargs}\n', replace='            self.default_kwargs.update(kwargs)\n            kwargs = self.default_kwargs\n',
+         expect='VALID-PURE'),
+    dict(name='exclude-bare-string', file='pjrpc/server/dispatcher.py', find='exclude=(self.context,) if self.context else ()', replace='exclude=self.context or ()',
+         expect='FWD-PARAM'),
 ]
